@@ -186,6 +186,7 @@ fn rsq_cases(r: &mut Rng, t: Tier, ops: &[&str], extra: &[&str], n_cases: usize,
         }
         let cnt = |s: u128| v.iter().filter(|&&x| x == s).count();
         let mut poss: Vec<usize> = vec![0, 1, n.saturating_sub(1), n, n + 1, usize::MAX];
+        poss.extend(huge_args(n));
         if n <= 600 {
             poss.extend((0..=n + 1).step_by(if n <= 70 { 1 } else { 7 }));
         }
@@ -235,7 +236,7 @@ fn rsq_cases(r: &mut Rng, t: Tier, ops: &[&str], extra: &[&str], n_cases: usize,
                 "select" | "select_unchecked" => {
                     for s in 0..4u128 {
                         let k = cnt(s);
-                        let mut ks = vec![0, 1, k.saturating_sub(1), k, k + 1, usize::MAX, k / 2];
+                        let mut ks = vec![0, 1, k.saturating_sub(1), k, k + 1, usize::MAX, k / 2, 1 << 63, (1 << 63) + k / 2, usize::MAX - k, (1 << 32) + 1];
                         for m in [8192usize, 16384, 24576] {
                             if k >= m {
                                 ks.extend([m - 2, m - 1, m]);
@@ -473,7 +474,7 @@ fn darray_cases(r: &mut Rng, t: Tier, extra: &[&str], n_cases: usize, out: &mut 
         }
         let (n1, n0) = if zero_plan { (nn - ps.len(), ps.len()) } else { (ps.len(), nn - ps.len()) };
         let mut sel_ks = |r: &mut Rng, cnt: usize, planned: bool| -> Vec<usize> {
-            let mut ks: Vec<usize> = vec![0, 1, cnt.saturating_sub(1), cnt, cnt + 1, usize::MAX];
+            let mut ks: Vec<usize> = vec![0, 1, cnt.saturating_sub(1), cnt, cnt + 1, usize::MAX, 1 << 63, (1 << 63) + cnt / 2, usize::MAX - cnt, (1 << 32) + 1];
             for g in 0..=(cnt / 1024).min(if planned { usize::MAX } else { 80 }) {
                 for d in [0usize, 1, 31, 32, 33, 1023] {
                     ks.push(g * 1024 + d);
@@ -553,10 +554,22 @@ fn bvm_history_cases(r: &mut Rng, t: Tier, n_cases: usize, out: &mut Vec<Case>) 
         let steps = r.range(5, scale(t, 60, 400) as u64);
         let mut nt = 0;
         for _ in 0..steps {
-            match r.below(12) {
+            match r.below(13) {
                 0 | 1 => {
                     c.l(format!("op 0 push {}", r.below(2)));
                     len += 1;
+                }
+                // zero-length operations at the start, inside and exactly at the end (accepted no-ops)
+                12 => {
+                    let at = *r.pick(&[0usize, len / 2, len.saturating_sub(1), len, len]);
+                    c.l(format!("op 0 set_bits {} 0 0", at));
+                    if r.chance(1, 2) {
+                        c.l("op 0 append_bits 0 0");
+                        c.l("op 0 extend_with_zeros 0");
+                        c.l("op 0 extend_bools");
+                        c.l("op 0 extend_pos");
+                    }
+                    c.l(format!("q 0 get_bits {} 0", at));
                 }
                 2 | 3 => {
                     let l = r.range(0, 64) as usize;
@@ -625,6 +638,9 @@ fn bvm_history_cases(r: &mut Rng, t: Tier, n_cases: usize, out: &mut Vec<Case>) 
                     c.l(format!("q {} {}", slot, op));
                 }
             }
+            for p in huge_args(len) {
+                c.l(format!("q {} get {}", slot, p));
+            }
             for p in [0, 1, len / 2, len.saturating_sub(1), len, len + 1, 63, 64, 65, 511, 512, 513, usize::MAX] {
                 c.l(format!("q {} get {}", slot, p));
                 c.l(format!("q {} ones_with_pos {}", slot, p.min(1 << 40)));
@@ -637,7 +653,8 @@ fn bvm_history_cases(r: &mut Rng, t: Tier, n_cases: usize, out: &mut Vec<Case>) 
                     c.l(format!("q {} get_bits {} {}", slot, s, l));
                 }
             }
-            for (s, l) in [(0usize, 0usize), (0, 65), (len, 1), (len + 1, 1), (usize::MAX, 1), (usize::MAX, 64), (len.saturating_sub(1), 2)] {
+            for (s, l) in [(0usize, 0usize), (0, 65), (len, 1), (len + 1, 1), (usize::MAX, 1), (usize::MAX, 64), (len.saturating_sub(1), 2),
+                           (1usize << 63, 1), ((1usize << 63) + len / 2, 1), (usize::MAX - 63, 64), (usize::MAX - 64, 64), (usize::MAX - len, 1), (0, usize::MAX), (1, usize::MAX), (len / 2, usize::MAX - 1)] {
                 c.l(format!("q {} get_bits {} {}", slot, s, l));
             }
             let nwords = 8 * ((len + 511) / 512);
@@ -659,7 +676,7 @@ fn bvm_history_cases(r: &mut Rng, t: Tier, n_cases: usize, out: &mut Vec<Case>) 
 /// `l` len, `t..z` nth(1,2,5,64,255,256,1000), capitals nth_back, `c` count, `a` last
 pub fn iter_history(r: &mut Rng, hl: usize, double_ended: bool) -> String {
     let small = ['t', 'u', 'v'];
-    let large = ['w', 'x', 'y', 'z'];
+    let large = ['w', 'x', 'y', 'z', 'w', 'x', 'y', 'z', 'o', 'p', 'q'];
     let style = r.below(4);
     (0..hl)
         .map(|_| {
@@ -744,6 +761,7 @@ fn qv_history_cases(r: &mut Rng, t: Tier, n_cases: usize, out: &mut Vec<Case>) {
         }
         c.l("dump 0");
         let mut poss: Vec<usize> = vec![0, 1, n / 2, n.saturating_sub(1), n, n + 1, 127, 128, 129, 255, 256, 257, usize::MAX];
+        poss.extend(huge_args(n));
         for _ in 0..40 {
             poss.push(r.below(n as u64 + 2) as usize);
         }
